@@ -143,6 +143,11 @@ fn run_case(seed: u64, idx: u64) -> CaseOut {
                     let secs = *rng.pick(&[1u64, 60, 3_600, 86_400]);
                     d.pb = ProgressBar::with_draw_target(Some(u64::MAX), ProgressDrawTarget::hidden()).with_elapsed(std::time::Duration::from_secs(secs));
                 }
+                // a bar whose steady ticker was switched on and off again is an ordinary manually driven bar
+                if rng.chance(1, 5) {
+                    d.pb.enable_steady_tick(Duration::from_secs(rng.range(1, 7200)));
+                    d.pb.disable_steady_tick();
+                }
                 // optionally start far up the u64 range (f64 cannot represent neighbouring positions
                 // there): seek to the base, forget it, then progress steadily in small steps
                 let base: u64 = match rng.below(4) {
